@@ -70,6 +70,8 @@ def from_json(j):
     t = j[0]
     if t == "c":
         return j[1]
+    if t == "cf":                      # a float constant with an integral value (only built, never exported)
+        return float(j[1])
     if t == "cb":
         return bool(j[1])
     if t == "cx":
